@@ -312,13 +312,16 @@ def gen_block(r, reads):
             tgt = t
         elif k == 2:
             lines += ["%s = 0" % tgt, "for i_ in range(%d):" % r.randint(0, 3), "    %s += i_ + %s" % (tgt, e(1))]
-            if r.random() < 0.3:
-                lines += ["else:", "    %s += 100" % tgt]
+            if r.random() < 0.5:
+                # (the else clause of a loop reads names too - possibly names read nowhere else)
+                lines += ["else:", "    %s += 100 + %s" % (tgt, e(1))]
         elif k == 3:
             lines += ["if %s > %s:" % (e(1), e(1)), "    %s = %s" % (tgt, e(1)), "else:", "    %s = %s" % (tgt, e(1))]
         elif k == 4:
             lines += ["try:", "    %s = %s // %s" % (tgt, e(1), r.choice(["0", "1", e(0)])),
                       "except ZeroDivisionError as err_:", "    %s = -1" % tgt]
+            if r.random() < 0.4:
+                lines += ["else:", "    %s += %s" % (tgt, e(1))]
             if r.random() < 0.4:
                 lines += ["finally:", "    v5 = 55"]
                 bound.append("v5")
@@ -620,6 +623,9 @@ DIRECTED = [
     ("dict-key-after-splat", "${{**base, key: val}}", {"base": {}, "key": "k", "val": 1}, True, "{'k': 1}", None),
     ("dict-key-after-splat-block", "<% d = {**base, key: 1, **base, other: 2} %>${d}", {"base": {}, "key": "k", "other": "o"}, True, "{'k': 1, 'o': 2}", None),
     ("dict-key-after-splat-fn", "<%\ndef g():\n    return {**base, kf: 1}\n%>${g()}", {"base": {}, "kf": "k"}, True, "{'k': 1}", None),
+    ("filter-args-sibling-comprehension", '<%!\ndef tg(l):\n    return lambda s: s + str(l)\n%>${"v" | n, tg([c for c in cs]), tg(c)}', {"cs": (1, 2), "c": "C"}, False, "v[1, 2]C", None),
+    ("filter-args-sibling-walrus", '<%!\ndef tg(l):\n    return lambda s: s + str(l)\n%>${"v" | n, tg(sum(q for q in (1, 2))), tg(q), tg([w for w in (3,)]), tg(w)}', {"q": "Q", "w": "W"}, False, "v3Q[3]W", None),
+    ("def-filter-args-sibling-comprehension", '<%!\ndef tg(l):\n    return lambda s: s + str(l)\n%><%def name="fd()" filter="tg({k: 1 for k in ks}), tg(k)">d</%def>${fd()}', {"ks": ("a",), "k": "K"}, False, "d{'a': 1}K", None),
     ("default-kwsplat", '<%! D = {"sep": "-"} %><%def name="f(a=dict(**D))">${a}</%def>${f()}', {}, False, "{'sep': '-'}", None),
 ]
 
